@@ -2742,6 +2742,53 @@ _int_unary("ilog2", lambda ty, x, n: mk_int("u32", x.bit_length() - 1) if x > 0 
 _int_unary("isqrt", lambda ty, x, n: mk_int(ty, __import__("math").isqrt(x)) if x >= 0 else TOP)
 
 
+def _rotate_helper(name):
+    names = ["core::num::<impl %s>::%s" % (ty, name) for ty in ("usize", "u8", "u16", "u32", "u64", "u128", "isize", "i8", "i16", "i32", "i64", "i128")]
+
+    @pmodel(*names)
+    def f(pe, st, args, t):
+        a, b = args[0], args[1]
+        if a == TOP or b == TOP or a[0] != "int" or b[0] != "int":
+            return TOP
+        from .fold import INT_BITS as IB, ty_range
+        ty = a[1]
+        n = IB.get(ty)
+        if n is None:
+            return TOP
+        lo, hi = ty_range(ty)
+        k = b[2] % n
+        x = a[2] & ((1 << n) - 1)
+        if name == "rotate_right":
+            k = (n - k) % n
+        r = ((x << k) | (x >> (n - k))) & ((1 << n) - 1) if k else x
+        if lo < 0 and r >= 1 << (n - 1):
+            r -= 1 << n
+        return mk_int(ty, r)
+    return f
+
+
+_rotate_helper("rotate_left")
+_rotate_helper("rotate_right")
+
+
+def _bitrev(x, n):
+    r = 0
+    for i in range(n):
+        if x >> i & 1:
+            r |= 1 << (n - 1 - i)
+    return r
+
+
+def _signed(ty, r, n):
+    return r - (1 << n) if ty.startswith("i") and r >= 1 << (n - 1) else r
+
+
+_int_unary("reverse_bits", lambda ty, x, n: mk_int(ty, _signed(ty, _bitrev(x & ((1 << n) - 1), n), n)))
+_int_unary("swap_bytes", lambda ty, x, n: mk_int(ty, _signed(ty, int.from_bytes((x & ((1 << n) - 1)).to_bytes(n // 8, "little"), "big"), n)))
+_int_unary("leading_ones", lambda ty, x, n: mk_int("u32", n - ((~x) & ((1 << n) - 1)).bit_length()))
+_int_unary("trailing_ones", lambda ty, x, n: mk_int("u32", (((~x) & ((1 << n) - 1)) & -((~x) & ((1 << n) - 1))).bit_length() - 1 if ((~x) & ((1 << n) - 1)) else n))
+
+
 def _float_model(name, fn, nargs=1):
     @pmodel("core::f64::<impl f64>::%s" % name, "std::f64::<impl f64>::%s" % name, "core::f32::<impl f32>::%s" % name, "std::f32::<impl f32>::%s" % name)
     def f(pe, st, args, t):
